@@ -149,7 +149,8 @@ type Interp struct {
 	compInvalid  map[int]bool
 	varByID      map[int]*Term
 	varsMemo     map[int][]*Term
-	secScaled    map[int]*Term // Duration terms that are seconds*1e9 without overflow -> the seconds term
+	secScaled    map[int]*Term // Duration terms that are seconds*1e9 + ns without overflow -> the seconds term
+	nsScaled     map[int]*Term // ... -> the nanoseconds term (0 <= ns < 1e9)
 	InitProblems []string
 	writeMark    int // object ids below this were allocated before vpWriteSetBegin
 	sharedWrites int
@@ -186,6 +187,7 @@ func (in *Interp) RunInits() (err error) {
 	in.ufCalls = map[string][]ufCall{}
 	in.resetPC()
 	in.secScaled = map[int]*Term{}
+	in.nsScaled = map[int]*Term{}
 	in.env = newEnvState(in)
 	in.sched = newScheduler(in)
 	in.sched.runMain(func() {})
@@ -314,6 +316,7 @@ func (in *Interp) RunPath(unit string, fn *ssa.Function, prefix []Decision) (res
 	in.pathVars = in.pathVars[:0]
 	in.resetPC()
 	in.secScaled = map[int]*Term{}
+	in.nsScaled = map[int]*Term{}
 	in.writeMark, in.sharedWrites = 0, 0
 	in.unit = unit
 	in.ufCalls = map[string][]ufCall{}
@@ -1169,51 +1172,44 @@ func (in *Interp) binop(op token.Token, xt types.Type, a, b Value, yt types.Type
 	panic(engineErr("unsupported binop %v on %T,%T", op, a, b))
 }
 
-// cmpScaled rewrites (secs*1e9) cmp K into a comparison on secs (exact: no overflow by construction).
+// cmpScaled rewrites (secs*1e9 + ns) cmp K, or a comparison of two such durations, into a
+// lexicographic comparison on (secs, ns) (exact: no overflow by construction, 0 <= ns < 1e9).
 func (in *Interp) cmpScaled(op token.Token, x, y *Term) *Term {
 	ts := in.ts
 	const e9 = int64(1000000000)
 	flip := map[token.Token]token.Token{token.LSS: token.GTR, token.GTR: token.LSS, token.LEQ: token.GEQ, token.GEQ: token.LEQ}
 	sx, okx := in.secScaled[x.ID]
 	sy, oky := in.secScaled[y.ID]
-	if okx && oky {
-		x, y = sx, sy
-	} else if okx && y.IsConst() {
+	var nx, ny *Term
+	switch {
+	case okx && oky:
+		nx, ny = in.nsScaled[x.ID], in.nsScaled[y.ID]
+	case okx && y.IsConst():
 		k := int64(y.Val)
-		fl := k / e9 // trunc toward zero
-		if k%e9 != 0 && k < 0 {
-			fl--
+		q := k / e9 // floor division
+		r := k % e9
+		if r < 0 {
+			q--
+			r += e9
 		}
-		// s*1e9 < k  <=> s < ceil(k/1e9) ; s*1e9 <= k <=> s <= floor(k/1e9)
-		ceil := fl
-		if k%e9 != 0 {
-			ceil = fl + 1
-		}
-		x = sx
-		switch op {
-		case token.LSS:
-			y = ts.Const(64, uint64(ceil))
-		case token.LEQ:
-			y = ts.Const(64, uint64(fl))
-		case token.GTR:
-			y = ts.Const(64, uint64(fl))
-		case token.GEQ:
-			y = ts.Const(64, uint64(ceil))
-		}
-	} else if oky && x.IsConst() {
+		nx = in.nsScaled[x.ID]
+		sy, ny = ts.Const(64, uint64(q)), ts.Const(64, uint64(r))
+	case oky && x.IsConst():
 		return in.cmpScaled(flip[op], y, x)
-	} else {
+	default:
 		return nil
 	}
+	lt := ts.Or(ts.Slt(sx, sy), ts.And(ts.Eq(sx, sy), ts.Ult(nx, ny)))
+	le := ts.Or(ts.Slt(sx, sy), ts.And(ts.Eq(sx, sy), ts.Ule(nx, ny)))
 	switch op {
 	case token.LSS:
-		return ts.Slt(x, y)
+		return lt
 	case token.LEQ:
-		return ts.Sle(x, y)
+		return le
 	case token.GTR:
-		return ts.Slt(y, x)
+		return ts.Not(le)
 	case token.GEQ:
-		return ts.Sle(y, x)
+		return ts.Not(lt)
 	}
 	return nil
 }
